@@ -25,40 +25,83 @@ targets!(
     ImportDirective, PragmaDirective, StraySemicolon, StructDefinition, TypeDefinition, Using, None,
 );
 
-pub type Detector = fn(SourceUnit) -> HashSet<Loc>;
+/// A detector as the harness calls it.  The adapters below accept the function whether it takes the tree by value
+/// or by reference and whatever collection of locations it returns, so that a change of signature in /repo that
+/// does not change behaviour does not stop the harness from compiling.
+pub type Detector = std::sync::Arc<dyn Fn(&SourceUnit) -> HashSet<Loc> + Send + Sync>;
+
+pub trait IntoDetector<M> {
+    fn into_detector(self) -> Detector;
+}
+impl<R: IntoIterator<Item = Loc>, F: Fn(SourceUnit) -> R + Send + Sync + 'static> IntoDetector<(SourceUnit, R)> for F {
+    fn into_detector(self) -> Detector {
+        std::sync::Arc::new(move |su: &SourceUnit| self(su.clone()).into_iter().collect())
+    }
+}
+impl<R: IntoIterator<Item = Loc>, F: for<'a> Fn(&'a SourceUnit) -> R + Send + Sync + 'static> IntoDetector<(&'static SourceUnit, R)> for F {
+    fn into_detector(self) -> Detector {
+        std::sync::Arc::new(move |su: &SourceUnit| self(su).into_iter().collect())
+    }
+}
+fn det<M, F: IntoDetector<M>>(f: F) -> Detector {
+    f.into_detector()
+}
+
+/// `storage_slots_used` whether it takes `Vec<u16>`, `&[u16]` or `&Vec<u16>` and whatever integer it returns
+pub trait SlotsFn<M> {
+    fn slots(&self, v: Vec<u16>) -> String;
+}
+impl<R: ToString, F: Fn(Vec<u16>) -> R> SlotsFn<(Vec<u16>, R)> for F {
+    fn slots(&self, v: Vec<u16>) -> String {
+        self(v).to_string()
+    }
+}
+impl<R: ToString, F: for<'a> Fn(&'a [u16]) -> R> SlotsFn<(&'static [u16], R)> for F {
+    fn slots(&self, v: Vec<u16>) -> String {
+        self(&v).to_string()
+    }
+}
+impl<R: ToString, F: for<'a> Fn(&'a Vec<u16>) -> R> SlotsFn<(&'static Vec<u16>, R)> for F {
+    fn slots(&self, v: Vec<u16>) -> String {
+        self(&v).to_string()
+    }
+}
+pub fn call_slots<M, F: SlotsFn<M>>(f: F, v: Vec<u16>) -> String {
+    f.slots(v)
+}
 
 pub fn detectors() -> Vec<(&'static str, Detector)> {
     vec![
-        ("address_balance_optimization", opt::address_balance::address_balance_optimization as Detector),
-        ("address_zero_optimization", opt::address_zero::address_zero_optimization),
-        ("assign_update_array_optimization", opt::assign_update_array_value::assign_update_array_optimization),
-        ("bool_equals_bool_optimization", opt::bool_equals_bool::bool_equals_bool_optimization),
-        ("cache_array_length_optimization", opt::cache_array_length::cache_array_length_optimization),
-        ("constant_variable_optimization", opt::constant_variables::constant_variable_optimization),
-        ("immutable_variables_optimization", opt::immutable_variables::immutable_variables_optimization),
-        ("increment_decrement_optimization", opt::increment_decrement::increment_decrement_optimization),
-        ("memory_to_calldata_optimization", opt::memory_to_calldata::memory_to_calldata_optimization),
-        ("multiple_require_optimization", opt::multiple_require::multiple_require_optimization),
-        ("optimal_comparison_optimization", opt::optimal_comparison::optimal_comparison_optimization),
-        ("pack_storage_variables_optimization", opt::pack_storage_variables::pack_storage_variables_optimization),
-        ("pack_struct_variables_optimization", opt::pack_struct_variables::pack_struct_variables_optimization),
-        ("payable_function_optimization", opt::payable_function::payable_function_optimization),
-        ("private_constant_optimization", opt::private_constant::private_constant_optimization),
-        ("safe_math_pre_080_optimization", opt::safe_math::safe_math_pre_080_optimization),
-        ("safe_math_post_080_optimization", opt::safe_math::safe_math_post_080_optimization),
-        ("shift_math_optimization", opt::shift_math::shift_math_optimization),
-        ("short_revert_string_optimization", opt::short_revert_string::short_revert_string_optimization),
-        ("solidity_keccak256_optimization", opt::solidity_keccak256::solidity_keccak256_optimization),
-        ("solidity_math_optimization", opt::solidity_math::solidity_math_optimization),
-        ("sstore_optimization", opt::sstore::sstore_optimization),
-        ("string_error_optimization", opt::string_errors::string_error_optimization),
-        ("divide_before_multiply_vulnerability", vuln::divide_before_multiply::divide_before_multiply_vulnerability),
-        ("floating_pragma_vulnerability", vuln::floating_pragma::floating_pragma_vulnerability),
-        ("unprotected_selfdestruct_vulnerability", vuln::unprotected_selfdestruct::unprotected_selfdestruct_vulnerability),
-        ("unsafe_erc20_operation_vulnerability", vuln::unsafe_erc20_operation::unsafe_erc20_operation_vulnerability),
-        ("constructor_order_qa", qa::constructor_order::constructor_order_qa),
-        ("private_func_leading_underscore", qa::private_func_leading_underscore::private_func_leading_underscore),
-        ("private_vars_leading_underscore", qa::private_vars_leading_underscore::private_vars_leading_underscore),
+        ("address_balance_optimization", det(opt::address_balance::address_balance_optimization)),
+        ("address_zero_optimization", det(opt::address_zero::address_zero_optimization)),
+        ("assign_update_array_optimization", det(opt::assign_update_array_value::assign_update_array_optimization)),
+        ("bool_equals_bool_optimization", det(opt::bool_equals_bool::bool_equals_bool_optimization)),
+        ("cache_array_length_optimization", det(opt::cache_array_length::cache_array_length_optimization)),
+        ("constant_variable_optimization", det(opt::constant_variables::constant_variable_optimization)),
+        ("immutable_variables_optimization", det(opt::immutable_variables::immutable_variables_optimization)),
+        ("increment_decrement_optimization", det(opt::increment_decrement::increment_decrement_optimization)),
+        ("memory_to_calldata_optimization", det(opt::memory_to_calldata::memory_to_calldata_optimization)),
+        ("multiple_require_optimization", det(opt::multiple_require::multiple_require_optimization)),
+        ("optimal_comparison_optimization", det(opt::optimal_comparison::optimal_comparison_optimization)),
+        ("pack_storage_variables_optimization", det(opt::pack_storage_variables::pack_storage_variables_optimization)),
+        ("pack_struct_variables_optimization", det(opt::pack_struct_variables::pack_struct_variables_optimization)),
+        ("payable_function_optimization", det(opt::payable_function::payable_function_optimization)),
+        ("private_constant_optimization", det(opt::private_constant::private_constant_optimization)),
+        ("safe_math_pre_080_optimization", det(opt::safe_math::safe_math_pre_080_optimization)),
+        ("safe_math_post_080_optimization", det(opt::safe_math::safe_math_post_080_optimization)),
+        ("shift_math_optimization", det(opt::shift_math::shift_math_optimization)),
+        ("short_revert_string_optimization", det(opt::short_revert_string::short_revert_string_optimization)),
+        ("solidity_keccak256_optimization", det(opt::solidity_keccak256::solidity_keccak256_optimization)),
+        ("solidity_math_optimization", det(opt::solidity_math::solidity_math_optimization)),
+        ("sstore_optimization", det(opt::sstore::sstore_optimization)),
+        ("string_error_optimization", det(opt::string_errors::string_error_optimization)),
+        ("divide_before_multiply_vulnerability", det(vuln::divide_before_multiply::divide_before_multiply_vulnerability)),
+        ("floating_pragma_vulnerability", det(vuln::floating_pragma::floating_pragma_vulnerability)),
+        ("unprotected_selfdestruct_vulnerability", det(vuln::unprotected_selfdestruct::unprotected_selfdestruct_vulnerability)),
+        ("unsafe_erc20_operation_vulnerability", det(vuln::unsafe_erc20_operation::unsafe_erc20_operation_vulnerability)),
+        ("constructor_order_qa", det(qa::constructor_order::constructor_order_qa)),
+        ("private_func_leading_underscore", det(qa::private_func_leading_underscore::private_func_leading_underscore)),
+        ("private_vars_leading_underscore", det(qa::private_vars_leading_underscore::private_vars_leading_underscore)),
     ]
 }
 
@@ -90,10 +133,11 @@ pub fn qas() -> Vec<(&'static str, QualityAssurance)> {
 }
 
 /// run a detector; None = panic
-pub fn run_detector(d: Detector, su: &SourceUnit) -> Option<Vec<(usize, usize)>> {
+pub fn run_detector(d: &Detector, su: &SourceUnit) -> Option<Vec<(usize, usize)>> {
     let su = su.clone();
+    let d = d.clone();
     catch_unwind(AssertUnwindSafe(move || {
-        let mut v: Vec<(usize, usize)> = d(su).into_iter().map(|l| (l.start(), l.end())).collect();
+        let mut v: Vec<(usize, usize)> = d(&su).into_iter().map(|l| (l.start(), l.end())).collect();
         v.sort();
         v.dedup();
         v
